@@ -34,8 +34,12 @@ var allOps = []expr.Operator{expr.And, expr.Or, expr.Equals, expr.Like, expr.Not
 var builtTrees = []func() *expr.Expression{
 	func() *expr.Expression { return expr.Eq("a", expr.Eq("b", 1)) },
 	func() *expr.Expression { return expr.AND(expr.Lit(5), expr.REGEXP("/x/")) },
-	func() *expr.Expression { return expr.NOT(expr.IN("a", expr.LIST(expr.Lit(1), expr.Lit("x"), expr.Lit(2.5)))) },
-	func() *expr.Expression { return expr.OR(expr.Rang("a", 1.5, "z", true), expr.MUST(expr.Rang("b", "*", 7, false))) },
+	func() *expr.Expression {
+		return expr.NOT(expr.IN("a", expr.LIST(expr.Lit(1), expr.Lit("x"), expr.Lit(2.5))))
+	},
+	func() *expr.Expression {
+		return expr.OR(expr.Rang("a", 1.5, "z", true), expr.MUST(expr.Rang("b", "*", 7, false)))
+	},
 	func() *expr.Expression { return expr.BOOST(expr.BOOST(expr.FUZZY(expr.Lit("a"), 2), 3.0), 2.0) },
 	func() *expr.Expression { return expr.MUSTNOT(expr.NOT(expr.LIKE("c", expr.WILD("a*")))) },
 	func() *expr.Expression { return expr.GREATER("a", expr.OR(expr.Lit("x"), expr.LESSEQ("b", 2))) },
